@@ -1,5 +1,129 @@
-(* C19 — placeholder while the proofs are being written *)
-From BT Require Import Base.Util Generated.Consts Model.AutoSql.
-Theorem C19_default_schema : write_pre_schema None = Ok (AUTOSQL_BED3, 3%N).
-Proof. vm_compute. reflexivity. Qed.
+(* C19 — the stored autoSql always matches the data; the schema parser is total.
+   Only statements, closed by [exact], with Print Assumptions beneath each; the proofs are in
+   Proofs/AutoSqlLex.v, AutoSqlTotal.v, AutoSqlGen.v, AutoSqlParseGen.v, AutoSqlStore.v.
+   Model: Model/AutoSql.v ([bed_autosql], [parse_autosql], the schema part of [write_pre]) over the
+   tables translated from bigtools/src/bed/autosql.rs into Generated/Consts.v. *)
+From Coq Require Import String.
+From BT Require Import Base.Util Generated.Consts Model.AutoSql Proofs.AutoSqlLex Proofs.AutoSqlTotal
+  Proofs.AutoSqlGen Proofs.AutoSqlParseGen Proofs.AutoSqlStore.
+Local Open Scope nat_scope.
+
+(* ------------------------------------------------------------------ the parser is total *)
+
+(* For every text s and every budget of at least [parse_fuel s] = |s| + cap + 2 loop turns the
+   parser returns declarations or an error value: it never runs out of fuel (= never hangs) and
+   never panics.  (Before the repair of D9 this was false: see corpus/C19.) *)
+Theorem C19_parser_total : forall (s : list N) (fuel : nat), parse_fuel s <= fuel ->
+  (exists ds, parse_autosql fuel s = Ok ds) \/ (exists c, parse_autosql fuel s = Err c).
+Proof. exact parser_total. Qed.
+Print Assumptions C19_parser_total.
+
+(* What it returns does not grow without bound: at most cap+1 declarations, and declarations +
+   fields + enum/set values together number at most the characters of the input. *)
+Theorem C19_parser_output_bounded : forall (s : list N) (fuel : nat) ds, parse_fuel s <= fuel ->
+  parse_autosql fuel s = Ok ds ->
+  length ds <= N.to_nat AUTOSQL_DECL_CAP + 1 /\ decls_weight ds <= length s.
+Proof. exact parser_output_bounded. Qed.
+Print Assumptions C19_parser_output_bounded.
+
+(* Non-vacuity: a two-declaration schema with an enum, a set, a sized array and an index parses;
+   the D9 witness (unterminated value list) is an error, not a hang. *)
+Example C19_example_parse :
+  let s := bs "table t ""c"" ( enum(a, b) e; ""x"" set(u,v,) f primary; int[3] g index[2] auto; ) simple p ""q"" ( uint x; )" in
+  parse_fuel s <= parse_fuel s /\
+  exists d1 d2, parse s = Ok [d1; d2] /\ length (d_fields d1) = 3 /\ length (d_fields d2) = 1
+                /\ decls_weight [d1; d2] = 10.
+Proof. split; [apply Nat.le_refl|]. eexists. eexists. vm_compute. repeat split. Qed.
+Example C19_example_d9 :
+  parse (bs "table t ""c"" ( enum(a, b") = Err E_InvalidFieldValuesBrackets
+  /\ parse (bs "table t ""c"" ( set(") = Err E_InvalidFieldValuesBrackets.
+Proof. split; vm_compute; reflexivity. Qed.
+
+(* ------------------------------------------------------------------ the generator *)
+
+(* For EVERY number n of extra columns the generated text declares exactly 3 + n fields
+   ([declared_fields]: field terminators outside quoted comments; no parser involved). *)
+Theorem C19_generated_field_count : forall n, declared_fields (bed_autosql_n n) = 3 + n.
+Proof. exact generated_field_count. Qed.
+Print Assumptions C19_generated_field_count.
+
+(* The same from the BED line: a non-empty rest made of separator-free columns joined by the
+   column separator yields 3 + (number of columns) fields; the empty rest yields 3. *)
+Theorem C19_generated_field_count_rest : forall cols, Forall no_sep cols -> join_cols cols <> [] ->
+  declared_fields (bed_autosql (join_cols cols)) = 3 + length cols.
+Proof. exact generated_field_count_rest. Qed.
+Print Assumptions C19_generated_field_count_rest.
+Theorem C19_generated_field_count_bed3_line : declared_fields (bed_autosql []) = 3.
+Proof. exact generated_field_count_bed3_line. Qed.
+Print Assumptions C19_generated_field_count_bed3_line.
+
+Example C19_example_rest :
+  let cols := [bs "name"; bs "0,1,"; bs ""; bs "+"] in
+  Forall no_sep cols /\ join_cols cols <> [] /\ join_cols cols = bs "name	0,1,		+"
+  /\ declared_fields (bed_autosql (join_cols cols)) = 7.
+Proof.
+  cbv zeta. split; [repeat constructor|]. split; [discriminate|]. split; vm_compute; reflexivity.
+Qed.
+
+(* The parser parses EVERY generated schema (all n, not only the property's 0..40) to exactly one
+   declaration, `table bed`, with 3 + n fields. *)
+Theorem C19_parse_generated : forall n, exists d,
+  parse (bed_autosql_n n) = Ok [d] /\ length (d_fields d) = 3 + n
+  /\ d_type d = Table /\ dn_name (d_name d) = [98; 101; 100]%N.
+Proof. exact parse_generated. Qed.
+Print Assumptions C19_parse_generated.
+
+Example C19_example_parse_generated_13 :
+  exists d, parse (bed_autosql_n 13) = Ok [d] /\ length (d_fields d) = 16
+  /\ map f_name (skipn 14 (d_fields d)) = [bs "expScores"; bs "field16"].
+Proof. eexists. vm_compute. repeat split. Qed.
+
+(* ------------------------------------------------------------------ what write_pre stores *)
+
+(* The header's field count for the schema generated from a line with n extra columns is 3 + n
+   (the field is a u16: stated for 3 + n < 65536), and the schema is stored as generated. *)
+Theorem C19_header_field_count : forall n, (N.of_nat (3 + n) < 65536)%N ->
+  write_pre_schema (Some (bed_autosql_n n)) = Ok (bed_autosql_n n, N.of_nat (3 + n)).
+Proof. exact header_field_count_generated. Qed.
+Print Assumptions C19_header_field_count.
+
+(* ... and through the tool, from the rest of the first BED line: text and header agree. *)
+Theorem C19_header_field_count_tool : forall cols, Forall no_sep cols -> join_cols cols <> [] ->
+  (N.of_nat (3 + length cols) < 65536)%N ->
+  write_pre_schema (Some (bed_autosql (join_cols cols)))
+  = Ok (bed_autosql (join_cols cols), N.of_nat (3 + length cols))
+  /\ declared_fields (bed_autosql (join_cols cols)) = 3 + length cols.
+Proof. exact header_field_count_tool. Qed.
+Print Assumptions C19_header_field_count_tool.
+
+(* A supplied schema is stored verbatim with the field count of the last declaration the parser
+   returns (3 when it does not parse or declares nothing); the only refusal is a NUL byte. *)
+Theorem C19_supplied_schema_verbatim : forall s,
+  (has_nul s = true -> write_pre_schema (Some s) = Err E_NulInSchema) /\
+  (has_nul s = false -> write_pre_schema (Some s) = Ok (s, (count_of (parse s) mod 65536)%N)).
+Proof. exact write_pre_supplied. Qed.
+Print Assumptions C19_supplied_schema_verbatim.
+
+Theorem C19_stored_is_supplied : forall s stored fc,
+  write_pre_schema (Some s) = Ok (stored, fc) -> stored = s /\ has_nul s = false /\ (fc < 65536)%N.
+Proof. exact supplied_schema_verbatim. Qed.
+Print Assumptions C19_stored_is_supplied.
+
+(* write_pre's schema step returns on every input: a value, or the NUL refusal. *)
+Theorem C19_write_pre_total : forall o,
+  (exists v, write_pre_schema o = Ok v) \/ write_pre_schema o = Err E_NulInSchema.
+Proof. exact write_pre_total. Qed.
+Print Assumptions C19_write_pre_total.
+
+(* The library default is the three-field BED schema. *)
+Theorem C19_default_schema :
+  write_pre_schema None = Ok (AUTOSQL_BED3, 3%N) /\ declared_fields AUTOSQL_BED3 = 3.
+Proof. exact default_schema. Qed.
 Print Assumptions C19_default_schema.
+
+Example C19_example_supplied :
+  let s := bs "table a ""x"" ( int p; ""1"" int q; ""2"" ) table b ""y"" ( int r; ""3"" int s; ""4"" int t; ""5"" int u; ""6"" )" in
+  has_nul s = false /\ write_pre_schema (Some s) = Ok (s, 4%N)
+  /\ write_pre_schema (Some (bs "table a ""x"" ( int p ")) = Ok (bs "table a ""x"" ( int p ", 3%N)
+  /\ has_nul [116; 0]%N = true.
+Proof. cbv zeta. repeat split; vm_compute; reflexivity. Qed.
